@@ -54,14 +54,16 @@ def rejections(model, scope):
     return out
 
 
-def check(ctx, report, rule, scope):
+def check(ctx, report, rule, scope, only=None, title=None):
     path = os.path.join(os.path.dirname(os.path.abspath(__file__)), 'specs', 'rejections.json')
     with open(path) as fh:
         table = json.load(fh)['rejections'].get(scope, {})
-    report.rule(rule, 'explicit rejections in the parsers are the ones the specification prescribes (table of tag / version / length checks)')
+    report.rule(rule, title or 'explicit rejections in the parsers are the ones the specification prescribes (table of tag / version / length checks)')
     found = rejections(ctx.model, scope)
     n = 0
     for construct, items in sorted(found.items()):
+        if only is not None and not construct.startswith(only):
+            continue
         allowed = list(table.get(construct, []))
         for key, node in items:
             n += 1
